@@ -39,3 +39,14 @@ package snapshot
 //@   requires engine != nil && engine.clock != nil
 //@   loop 0
 //@     iteration {C03} due: calls(TakeSnapshot) == atheader(calls(TakeSnapshot)) ==> atomic(engine.changeCount) < engine.snapshotThreshold
+
+// Restore hands the recorded last-save time to the server and re-installs each key it visits under its own database and name.
+// (Reading and decoding the two files is outside the proof: os, io, encoding/json. That only unexpired keys are visited rests on
+// FilterExpiredKeys' contract; it is not re-established across the server callback, which may write any map of that type.)
+//@ fieldspec snapshot.Engine.setKeyDataFunc props C03
+//@   modifies *
+//@ func (*Engine).Restore props C03,C10
+//@   requires engine.clock != nil
+//@   assert @setLatestSnapshotTimeFunc#0 {C03} recorded-time: arg0 == snapshotObject.LatestSnapshotMilliseconds
+//@   assert @setKeyDataFunc#0 {C03,C20} own-place: arg0 == database && arg1 == key && arg2 == keyData
+//@   modifies *
